@@ -338,6 +338,8 @@ static cfg_opt_t *cfg_getopt_secidx(cfg_t *cfg, const char *name,
 
 		name += len;
 		name += strspn(name, "|");
+		if (!*name && name[-1] == '|')
+			return NULL;	/* stray separator at the end */
 	}
 
 	if (!index) {
